@@ -16,3 +16,4 @@ pub mod util;
 pub mod refmodel;
 
 pub mod h_c09;
+pub mod h_ser;
